@@ -75,4 +75,22 @@ TEXT = {
         "level_note": TRUST + " The shape the property itself excludes (help below an ancestor whose own arguments contain '--') is counted, not asserted.",
         "technique": "model-based property-based testing over trees x policies x help-token positions (rapid)",
     },
+    "C06": {
+        "level_text": "Model-based property-based testing of the precedence rule over all seven built-in types, option and argument, default x environment list (unset/empty/valid/invalid) x 0-3 command-line values in every spelling; the model is the statement itself with strconv as validity judge; values are read inside the Action.",
+        "design_ref": "DESIGN.md section 5 (C06)",
+        "level_note": TRUST + " F9 is a recorded known finding identified by its exact case class.",
+        "technique": "model-based property-based testing (rapid) with strconv as oracle",
+    },
+    "C13": {
+        "level_text": "Differential property-based testing against strconv: arbitrary tokens (numeric edge literals, generated numeric shapes, arbitrary strings) through every built-in type, option/argument and command-line/environment route; acceptance and bound value (floats bit-exact) must equal strconv's; an unparsable command-line token must be a usage error with no Action.",
+        "design_ref": "DESIGN.md section 5 (C13)",
+        "level_note": TRUST,
+        "technique": "differential property-based testing against strconv (rapid); native go fuzz target in the thorough tier",
+    },
+    "C15": {
+        "level_text": "Model-based property-based testing: SetByUser of every container must be true exactly when the generated command line supplied a value for it, across all built-in types, options and arguments, with environment values and defaults present or absent.",
+        "design_ref": "DESIGN.md section 5 (C15)",
+        "level_note": TRUST,
+        "technique": "model-based property-based testing (rapid)",
+    },
 }
